@@ -3,10 +3,11 @@
 (from /root/scratch/seed2-Cnn/out/mK, confirm logs in /root/scratch/confirm-logs/r2-Cnn-mK.log)
 into /verif/seeded/Cnn-r2-mK with the reporting rules found by tools/seed_detect.sh."""
 import sys, os, re, json, subprocess, shutil, glob
+RND = os.environ.get("ROUND", "2")
 for prop in sys.argv[1:]:
     for m in ("m1", "m2", "m3"):
-        src = f"/root/scratch/seed2-{prop}/out/{m}"
-        log = f"/root/scratch/confirm-logs/r2-{prop}-{m}.log"
+        src = f"/root/scratch/seed{RND}-{prop}/out/{m}"
+        log = f"/root/scratch/confirm-logs/r{RND}-{prop}-{m}.log"
         if not os.path.isdir(src) or not os.path.exists(log):
             print("missing", prop, m); continue
         res = [l.strip() for l in open(log) if l.startswith("RESULT")]
@@ -22,14 +23,14 @@ for prop in sys.argv[1:]:
             needs = re.sub(r"\s+", " ", mm.group(0)).strip()
             needs = re.sub(r"^[#*\s]*(what it )?needs( to manifest)?\**\s*(\([^)]*\))?\s*[:\-—]*\s*", "", needs, flags=re.I)
         needs = needs[:420]
-        d = f"/verif/seeded/{prop}-r2-{m}"
+        d = f"/verif/seeded/{prop}-r{RND}-{m}"
         os.makedirs(d, exist_ok=True)
         shutil.copy(src + "/patch.diff", d)
         for f in glob.glob(src + "/*_test.go"):
             shutil.copy(f, d + "/" + os.path.basename(f) + ".txt")
         if readme:
             shutil.copy(src + "/README.md", d)
-        json.dump({"property": prop, "round": 2, "needs_to_manifest": needs,
+        json.dump({"property": prop, "round": int(RND), "needs_to_manifest": needs,
                    "confirmed_by": "tools/confirm_seed.sh in a scratch worktree of /repo HEAD (removed afterwards): " + res[-1],
                    "detected_by": det}, open(d + "/meta.json", "w"), indent=1)
         print("saved", prop, m, "|", det[:100])
